@@ -140,11 +140,13 @@ def model_header(plan):
     lines.append('        verif::the_component() = this;')
     lines.append('        verif::the_pump() = locator.try_get<dzn::pump>();')
     lines.append('        verif::rec(std::string("ENC constructed pump=") + (locator.try_get<dzn::pump>() ? "1" : "0") + " runtime=" + (locator.try_get<dzn::runtime>() ? "1" : "0"));')
+    k = 0
     for p in plan['ports']:
         for e in p['itf']['events']:
             if (not p['requires'] and not e['out']) or (p['requires'] and e['out']):
                 lbl = 'out' if e['out'] else 'in'
-                lines.append(f'        {p["name"]}.{lbl}.{e["name"]} = {handler(p["name"], e, "ENC")};')
+                lines.append(f'        if (verif::skip_enc() != {k}) {p["name"]}.{lbl}.{e["name"]} = {handler(p["name"], e, "ENC")};')
+                k += 1
         side = 'require' if p['requires'] else 'provide'
         lines.append(f'        {p["name"]}.meta.{side}.name = "{p["name"]}";')
     lines.append('    }')
@@ -157,3 +159,15 @@ def model_header(plan):
     lines.append('};')
     out.append(wrap_ns(plan['enc_fqn'][:-1], '\n'.join(lines) + '\n'))
     return '\n'.join(out)
+
+
+def enc_handler_count(plan, exposed_only=True):
+    """indices of the component-side handlers in model_header order -> (index, port, event label)"""
+    out = []
+    k = 0
+    for p in plan['ports']:
+        for e in p['itf']['events']:
+            if (not p['requires'] and not e['out']) or (p['requires'] and e['out']):
+                out.append((k, p, e))
+                k += 1
+    return out
